@@ -188,8 +188,7 @@ def r2_kill(report, repo, rule='C12-R2'):
           'teardown skipped) although such a kill must have no effect')
 
 
-def r3_join_or_die(report, repo):
-  rule = 'C12-R3'
+def r3_join_or_die(report, repo, rule='C12-R3'):
   report.rule(rule, 'T-DTABLE/T-LOOP: join_or_die: deadline = now + (timeout_s '
               'option else default); loop bounded by the deadline comparison, '
               'each iteration join(<finite constant>); afterwards: stored '
@@ -402,3 +401,5 @@ def run(report, repo):
   report.guard(extra4.joins_are_bounded, report, repo, 'C12-R9')
   from sa.rules import extra5 as _e5b  # pylint: disable=g-import-not-at-top
   report.guard(_e5b.monitor_binds_measurement_once, report, repo, 'C12-R10')
+  from sa.rules import extra5 as _e6  # pylint: disable=g-import-not-at-top
+  report.guard(_e6.first_terminal_outcome_wins, report, repo, 'C12-R11')
